@@ -415,5 +415,144 @@ PROPS["C14"] = {
     "technique": "small-scope exhaustive enumeration + property-based testing (rapid): round-trip, reference appliers, GNU patch differential",
 }
 
+PROPS["C15"] = {
+    "legs": [plain("exh", "pshell", "TestC15Exhaustive", solo=True),
+             rapid("lists", "pshell", "TestC15Lists", 4, 3000, 16, 30000),
+             plain("pool", "pshell", "TestC15Pool"),
+             plain("shells", "pshell", "TestC15Shells", solo=True)],
+    "rule": "leg exh: every single byte 0x00-0xFF and every string of length <=3 (quick) / <=4 (thorough) over the 26 "
+            "shell-significant bytes | & ; < > ( ) $ ` \\ \" ' SP TAB NL * ? [ # ~ = % { } ! ] plus 'a' and 0x80; leg "
+            "lists: rapid lists of 0-5 strings of <=12 bytes over a weighted alphabet (metacharacters, quotes, backslash, "
+            "blanks, newline, { } ! ^ , : -, arbitrary bytes incl. NUL); leg pool: thousands of consecutive calls, then the "
+            "same Join/Split calls from 8 goroutines at once must give the sequential answers (pooled buffers/scanners). "
+            "O1: Split(Join(ss)) == ss,true and Split(Quote(s)) == [s],true, Join == quoted elements joined by one space. "
+            "O2: an independent POSIX scan of Quote(s) (own quote-removal code): well formed, no byte of the XCU 2.2 "
+            "special sets left bare, quote removal yields s. O3 (leg shells): dash and bash +B (LC_ALL=C, PATH=/nonexistent, "
+            "HOME=/TILDE, cwd holding files a b ab x 1 so that a bare glob changes the word) evaluate "
+            "`set -- <Quote(s)>; printf '%s\\0' \"$#\" \"$@\"` for every NUL-free input of leg exh plus generated longer "
+            "words, 4000 words per shell invocation; the first discrepancy of a batch is confirmed by running that word "
+            "alone. NON-TRIVIAL iff a string is empty, has a non-ASCII byte, or has a single quote adjacent to a "
+            "must-quote character. Distinct: by construction (exh, shells: distinct strings), hash of the case JSON (lists).",
+    "assumptions": COMMON_ASSUME + ["dash and bash implement POSIX quoting for the generated words (brace expansion, a bash extension, is switched off with +B); when neither shell exists leg shells is skipped and says so", "NUL-containing strings are excluded from the real-shell oracle only"],
+    "technique": "small-scope exhaustive enumeration + property-based testing (rapid): round-trip, independent POSIX scanner, differential against real shells",
+}
+
+PROPS["C16"] = {
+    "legs": [plain("exh", "pshell", "TestC16Exhaustive", solo=True),
+             rapid("rand", "pshell", "TestC16Rand", 4, 2500, 16, 25000),
+             plain("shells", "pshell", "TestC16Shells", solo=True)],
+    "rule": "leg exh: every string of length <=6 (quick) / <=7 (thorough) over one representative per tokenizer class "
+            "{a, SP, NL, backslash, ', \"} and of length <=4 / <=5 over two representatives per class (0xFF and TAB added); "
+            "leg rand: rapid inputs of <=40 bytes weighted towards the class representatives, plus a drawn reader "
+            "fragmentation plan. O1: Split's fields and completeness flag equal those of a reference tokenizer written as "
+            "a mode loop from the POSIX rules (blanks/newlines, backslash incl. line continuation, single quotes, double "
+            "quotes where backslash only escapes \" and backslash and continues lines; at end of input a pending, possibly "
+            "empty, token is delivered and the flag is false if a quote or escape is open). O2 (leg shells): for every "
+            "enumerated input that is complete and has no unquoted newline, dash and bash +B evaluating `set -- <input>` "
+            "produce exactly Split's fields. O3 (Scanner; every input of length <=4, a stride sample of the longer ones, "
+            "and every rand case): for each fragmentation (one byte at a time, {2,0,1}, {3}, {1,5,0,2}, whole, drawn; with "
+            "and without io.EOF delivered together with data; (0,nil) reads) Next/Text, Each (stoppable) and Scanner.Split "
+            "yield the reference tokens, Complete after the last token equals the reference flag, Next stays false, for "
+            "EVERY token index j Rest() after j tokens returns exactly the reference's unconsumed suffix and Next is false "
+            "afterwards, and a scanner reused through Reset behaves as a fresh one. NON-TRIVIAL iff the input drives >=3 "
+            "distinct modes of the reference (word, escape, single, double, escape-in-double) and ends a token otherwise "
+            "than by a blank right after a plain character. Distinct: by construction (exh, shells), hash of the case JSON (rand).",
+    "assumptions": COMMON_ASSUME + ["the real-shell comparison is restricted to the statement's domain: complete inputs without unquoted newlines over the tokenizer's classes"],
+    "technique": "small-scope exhaustive enumeration + property-based testing (rapid): differential against an independent reference tokenizer and real shells; reader fragmentation",
+}
+
+# Driver configuration for the pslice package (C11, C12, C17).
+# Append to /verif/checks_config.py (uses its rapid(...), plain(...) helpers and COMMON_ASSUME).
+
+PROPS["C11"] = {
+    "legs": [plain("exh", "pslice", "TestC11Exhaustive", solo=True),
+             rapid("rand", "pslice", "TestC11Rand", 4, 10000, 16, 400000)],
+    "rule": "A case is one input pair {lhs, rhs} of slice.EditScript (integer elements). leg exh enumerates, in order of "
+            "total length and spread over all cores, EVERY pair over {0,1,2} with both lengths <= 6 and every pair over "
+            "{0,1} with both lengths <= 9 (quick; 2.2 M pairs) / {0,1,2} <= 8, {0,1} <= 11 and every pair over {0,1,2,3} "
+            "<= 6 that uses the symbol 3 (thorough; 142 M pairs); the scopes are disjoint by construction, so every "
+            "evaluated pair is distinct. leg rand (rapid) draws alphabets of 2-4 symbols and lengths <= 60: two copies of a "
+            "common base (uniform, runs of equal elements, or periodic) with point/block mutations (substitute, insert, "
+            "delete, duplicate a block, insert a run, delete a block) and spliced-in crossings (two adjacent equal-length "
+            "blocks swapped), rotations of one sequence, independent and identical pairs. Oracle, per pair: the script is "
+            "executed edit by edit - every X must be exactly lhs[lpos:lpos+len(X)] and every Y exactly "
+            "rhs[rpos:rpos+len(Y)] (same backing array, checked by element address, and same contents), Emit must "
+            "reproduce the next rhs elements, the offsets must end at len(lhs) and len(rhs) and the produced output must "
+            "equal rhs; Drop/Emit have empty Y, Copy has empty X, no edit is empty, Replace has both sides non-empty, "
+            "adjacent edits differ in kind, no Drop is adjacent to a Copy, the script is empty iff lhs == rhs; the number "
+            "of emitted elements equals the LCS length from an independent textbook O(mn) table; both inputs are compared "
+            "with copies afterwards. A pair is NON-TRIVIAL iff it has >= 2 DISTINCT longest common subsequences (distinct "
+            "as sequences of values; counted by an independent next-occurrence DP that was validated against brute force) "
+            "- the ambiguous alignments. Distinct = distinct by construction (exh) / distinct canonical JSON of the pair "
+            "(rand, 64-bit hash, unioned over shards).",
+    "assumptions": COMMON_ASSUME + ["elements are ints compared with ==; EditScript is generic in T but its control flow "
+                                    "does not depend on T"],
+}
+
+PROPS["C12"] = {
+    "legs": [plain("lisexh", "pslice", "TestC12LISExhaustive", solo=True),
+             plain("lcsexh", "pslice", "TestC12LCSExhaustive", solo=True),
+             rapid("lisrand", "pslice", "TestC12LISRand", 4, 10000, 16, 500000),
+             rapid("lcsrand", "pslice", "TestC12LCSRand", 4, 5000, 16, 150000)],
+    "rule": "LIS/LNDS legs: a case is {vs, cmp} with cmp in nat (slice.LIS / slice.LNDS), rev (LISFunc / LNDSFunc with the "
+            "reversed order) or half (…Func comparing v>>1, so distinct elements compare equal and the identity of the "
+            "returned elements is observable); BOTH the strict and the non-decreasing function are called on every case. "
+            "leg lisexh enumerates every sequence over {0,1} to length 13, {0,1,2} to length 10 and {0..3} to length 8, "
+            "each with the three comparisons (quick; 0.54 M cases) / {0,1} to 18, {0,1,2} to 13, {0..3} to 10, {0..4} to "
+            "8 (thorough; 13.8 M), in length order; sequences already contained in a smaller-alphabet scope are skipped. "
+            "leg lisrand (rapid): length <= 200 over 1-6 distinct values (2-12 for half): uniform, runs of equals, "
+            "ascending/descending plateaus with noise, or a wider value range. Oracle: the result is a subsequence of "
+            "the input (greedy embedding by ==), strictly increasing resp. non-decreasing under the comparison used, its "
+            "length equals an independent O(n^2) DP optimum, and the input equals a copy taken before the call. "
+            "NON-TRIVIAL iff len(LNDS) > len(LIS) under the comparison used (a run of equivalent elements matters for "
+            "the optimum). "
+            "LCS legs: a case is {as, bs, fold}; fold=false calls slice.LCS, fold=true calls slice.LCSFunc with the "
+            "case-folding equality a>>1 == b>>1 (element = 2*letter + case bit). leg lcsexh: every pair over {0,1,2} "
+            "with lengths <= 5 and over {0,1} with lengths <= 8, each with and without fold (quick; 0.78 M cases) / "
+            "{0,1,2} <= 7, {0,1} <= 10, {0..3} <= 5 using the symbol 3 (thorough; 33 M), in order of total length. leg "
+            "lcsrand (rapid): pairs of length <= 200 over 1-5 letters built as in C11 (mutated copies of a common base "
+            "with long runs, crossings, rotations, independent, identical), one third with fold and random case bits. "
+            "Oracle: the result embeds (greedy, under the equality in use) in as and in bs, each of its elements occurs "
+            "literally in one of the inputs, its length equals the textbook O(mn) optimum computed on the equivalence "
+            "classes, both inputs equal their copies afterwards. NON-TRIVIAL iff the pair has >= 2 distinct longest "
+            "common subsequences (as sequences of classes). Distinct = distinct by construction (exhaustive legs) / "
+            "distinct canonical JSON of the case (rapid legs, 64-bit hash, unioned over shards).",
+    "assumptions": COMMON_ASSUME + ["comparison functions are total preorders on ints (natural, reversed, v>>1); the "
+                                    "equality passed to LCSFunc is an equivalence relation"],
+}
+
+PROPS["C17"] = {
+    "legs": [plain("exh", "pslice", "TestC17Exhaustive", solo=True),
+             rapid("rand", "pslice", "TestC17Rand", 4, 10000, 16, 500000)],
+    "rule": "A case is one call {fn, n, k, spare, keep, rows}: the slice has n distinct elements 100+i, `spare` filler "
+            "elements of spare capacity behind it and a sentinel after its capacity; k is the numeric argument. leg exh "
+            "enumerates, by slice length: Partition for EVERY keep pattern of n <= 12 (quick) / 18 (thorough) elements "
+            "with spare 0 and 2; Rotate for every n <= 24 / 96 and every k in [-n-2, n+2] (spare 0, 1); Chunks and "
+            "Batches for every len <= 20 / 64 and n in [-1, max(17, len+3)] (spare 0, 2); Head/Tail n in [0, len+2]; "
+            "At/PtrAt i in [-len-2, len+2]; Stripe for every tuple of <= 4 / 5 rows of lengths 0..3 / 0..4 and i in "
+            "[0, max+1] (quick 22.7 k, thorough 1.1 M cases). leg rand (rapid): lengths to 300 (Partition 120) with "
+            "arguments drawn at or next to the documented boundaries or anywhere in range, Rotate with gcd(k, n) > 1 by "
+            "construction (n = a*b, k = +-a*c), keep patterns as random bits, runs, few flips, or already partitioned. "
+            "Oracle = the direct definitions: Partition returns exactly the kept elements in order, as vs[:m:m] of the "
+            "same array (for n > 0; an empty input only needs len 0), the slice stays a permutation, spare capacity and "
+            "sentinel untouched; Rotate: the element from index i is at (i+k) mod n for -n <= k <= n (no panic), any "
+            "other k must panic; Chunks/Batches: the pieces alias vs at consecutive offsets and concatenate to vs, every "
+            "piece that is followed by another has cap == len, all chunks but the last have length n and none more than "
+            "n, n == 0 gives one chunk with everything / no batches, exactly min(n, len) batches whose lengths differ by "
+            "<= 1 (the ORDER of larger and smaller batches is not documented and only recorded as a class), n < 0 must "
+            "panic, Batches(empty, n > 0) must return no batches without panicking; Head/Tail alias the first/last "
+            "min(n, len) elements; Stripe equals the column definition and leaves the rows alone; At returns the "
+            "element (negative indices from the end) and panics out of range, PtrAt returns the address of that very "
+            "element or nil and never panics; non-mutating functions leave slice, spare capacity and sentinel unchanged. "
+            "'No panic for an allowed argument' is asserted with recover. NON-TRIVIAL iff the argument is at or adjacent "
+            "to a documented boundary (Rotate k in {-n-1..-n+1, -1..1, n-1..n+1}; Chunks/Batches n in {-1,0,1,len-1,len,"
+            "len+1}; Head/Tail n in {0,1,len-1,len,len+1}; At/PtrAt i in {-len-1,-len,-1,0,len-1,len}; Stripe i >= "
+            "max-1, no rows, or a ragged column), the slice is empty, gcd(k, n) > 1 for Rotate, and for Partition: "
+            "empty / all kept / none kept / at least one kept element behind a dropped one (a swap is needed). Distinct "
+            "= distinct by construction (exh) / distinct canonical JSON of the call (rand).",
+    "assumptions": COMMON_ASSUME + ["elements are ints; Head/Tail/Stripe are only called with non-negative arguments "
+                                    "(negative ones are not documented)"],
+}
+
 # Properties deliberately not claimed (reason shown in MANIFEST.not_applicable).
 NOT_APPLICABLE = {}
